@@ -335,7 +335,12 @@ def check(ctx: Ctx, col: Collector, tier: str) -> None:
             "tuple": "sds.TupleType", "list": "sds.ListType", "Sequence": "sds.ListType", "Collection": "sds.ListType",
             "set": "sds.SetType", "dict": "sds.DictType", "Mapping": "sds.DictType"}
     for name, want in inst.items():
-        outs = run_v("Instance", {repr(Sym("mypy_type.type.name")): Const(name)})
+        facts = {repr(Sym("mypy_type.type.name")): Const(name)}
+        if want == "sds.DictType":
+            # library fact: an Instance carries one argument per type variable of its class (mypy fills omitted ones with Any);
+            # builtins.dict and typing.Mapping have two.  A class that is merely named like them is the `other class` case.
+            facts[repr(App("len", (Sym("mypy_type.args"),)))] = Const(2)
+        outs = run_v("Instance", facts)
         got = only_obj(outs)
         key = f"{vkey}::Instance:{name}"
         probs = []
